@@ -305,7 +305,8 @@ def _interleave_calls(tree):
                 continue
             x, k, rest = node.func.value, node.args[0], node.args[1:]
         dim = next((kw_.value for kw_ in node.keywords if kw_.arg == "dim"), rest[0] if rest else None)
-        if not (isinstance(dim, ast.Constant) and dim.value == 0):
+        # no `dim`: torch flattens, which for the 1-D row-index vectors this is used on is the batch axis as well
+        if not ((isinstance(dim, ast.Constant) and dim.value == 0) or dim is None):
             continue
         base = x
         while isinstance(base, ast.Call) and isinstance(base.func, ast.Attribute) and base.func.attr in ("to", "long", "int"):
